@@ -341,8 +341,11 @@ cdef class CellIndexingNNPS(NNPS):
         cdef double* xmax = self.xmax.data
         cdef double* xmin = self.xmin.data
 
-        self.J = <u_int> (1 + log2(ceil((xmax[0] - xmin[0])/self.cell_size)))
-        self.K = <u_int> (1 + log2(ceil((xmax[1] - xmin[1])/self.cell_size)))
+        # at least one cell along a direction without extent: log2(0) is -inf.
+        cdef double ncx = ceil((xmax[0] - xmin[0])/self.cell_size)
+        cdef double ncy = ceil((xmax[1] - xmin[1])/self.cell_size)
+        self.J = <u_int> (1 + log2(ncx if ncx > 1.0 else 1.0))
+        self.K = <u_int> (1 + log2(ncy if ncy > 1.0 else 1.0))
 
         for i in range(self.narrays):
             free(self.keys[i])
